@@ -1001,6 +1001,11 @@ func planC08(prop string, seed uint64, tier string, idx int) *Plan {
 			op.Act = "get"
 		case 7, 8, 9:
 			op.Act = "put"
+			if len(blobs) > 1 && g.r.chance(12) {
+				// the client finishes the session with other content than it started or announced (a mount that fell back to a
+				// session was announced for one digest): correct digest of what is sent, just not what the session was for
+				op.Obj = blobs[g.r.intn(len(blobs))]
+			}
 			if g.r.chance(30) {
 				op.Decl = g.r.str("wrong", "prefix", "other", "badfmt")
 			}
